@@ -20,6 +20,8 @@ def run(rep):
         from . import c01
         c01.confirm_jd(rep, res)
     kp.confirm(rep, [x for x in res if not x["name"].startswith("JulianDay")], WANT, 60)
+    from . import ephsweep
+    ephsweep.sweep(rep, {"asr"})
     rep.samples = [{"obligation": o["name"], "status": o["status"], "paths": o.get("paths"), "queries": o.get("queries")} for o in rep.obligations]
 
 
